@@ -1,8 +1,8 @@
 (* Run.v — entry point used by the extracted driver and by the in-Coq
    cross-check: one case (as written by the harness) and the implementation's
    observation in, the model's observation and the spec verdicts out. *)
-From Model Require Import Str Sexp Http Cors Template Table Curly DetectRoute Jsr311 Router Options.
-From Spec Require Import CorsSpec RouteSpec RankSpec.
+From Model Require Import Str Sexp Http Cors Template Table Curly DetectRoute Jsr311 Router Options Dispatch.
+From Spec Require Import CorsSpec RouteSpec RankSpec DispatchSpec.
 
 Definition verdict (name : string) (b : bool) : sexp := Lst [A (L name); of_bool b].
 
@@ -351,6 +351,117 @@ Definition run_perm (c impl : sexp) : sexp :=
         Lst [ verdict "kf:K-C03-1" tie; verdict "in_scope" scope;
               verdict "permutations_built" (Nat.ltb 1 (List.length iobs)) ] ].
 
+(* ---- domain "disp" (C06 C07 C10 C19) ----
+   case: (oracles cfg history mode); impl: (seq fresh conc ledger), each a list of
+   per-request observations (panic status headers body ok log recovered) *)
+Definition sx_action (x : sexp) : action :=
+  let a := sx_str (sx_nth 1 x) in
+  let b := sx_str (sx_nth 2 x) in
+  match sx_int (sx_nth 0 x) with
+  | 0 => AHeader a b
+  | 1 => AStatus (fold_left (fun acc c => acc * 10 + Z.of_N (N_of_ascii c) - 48) a 0)
+  | 2 => AWrite a
+  | 3 => AAttr a b
+  | 4 => ASee a
+  | _ => APanic a
+  end%Z.
+Definition sx_fscript (x : sexp) : fscript :=
+  {| f_id := sx_str (sx_nth 0 x); f_pre := map sx_action (sx_list (sx_nth 1 x));
+     f_pass := sx_bool (sx_nth 2 x); f_post := map sx_action (sx_list (sx_nth 3 x));
+     f_fresh := sx_bool (sx_nth 4 x) |}.
+Definition sx_fscripts (x : sexp) : list fscript := map sx_fscript (sx_list x).
+Definition sx_dcfg (x : sexp) : dcfg :=
+  {| d_table := sx_table (sx_nth 0 x);
+     d_cfilters := sx_fscripts (sx_nth 1 x);
+     d_sfilters := map (fun y => (ws_path (sx_str (sx_nth 0 y)), sx_fscripts (sx_nth 1 y))) (sx_list (sx_nth 2 x));
+     d_rfilters := map (fun y => (sx_int (sx_nth 0 y), sx_fscripts (sx_nth 1 y))) (sx_list (sx_nth 3 x));
+     d_handlers := map (fun y => (sx_int (sx_nth 0 y), map sx_action (sx_list (sx_nth 1 y)))) (sx_list (sx_nth 4 x));
+     d_encoding := sx_bool (sx_nth 5 x);
+     d_recover := sx_bool (sx_nth 6 x);
+     d_recover_script := map sx_action (sx_list (sx_nth 7 x)) |}.
+
+Definition res_obs (r : res) : sexp :=
+  let s := state_of r in
+  let '(body, ok) := match st_comp s with
+                     | Some (_, chunks, closed) => (concat (st_raw s) ++ concat chunks, closed)
+                     | None => (concat (st_raw s), true)
+                     end in
+  Lst [ match r with Panicked m _ => Lst [A m] | Done _ => Lst [] end;
+        I (match st_status s with Some n => n | None => 200%Z end);
+        canon_headers (st_hdr s);
+        A body; of_bool ok; of_strs (st_log s); of_nat (st_recovered s) ].
+
+Definition serve_hist_item (O : oracles) (cfg : dcfg) (h : sexp) : res :=
+  let en := if Z.eqb (sx_int (sx_nth 0 h)) 0 then EDispatch else EServeHTTP in
+  let req := sx_request (sx_nth 1 h) in
+  let preset := sx_str (sx_nth 2 h) in
+  serve O cfg en req (st0 (match preset with [] => [] | _ => [(H_ContentEncoding, preset)] end)).
+
+Definition run_disp (c impl : sexp) : sexp :=
+  let O := sx_oracles (sx_nth 0 c) in
+  let cfg := sx_dcfg (sx_nth 1 c) in
+  let hist := sx_list (sx_nth 2 c) in
+  let mode := sx_int (sx_nth 3 c) in
+  let results := map (serve_hist_item O cfg) hist in
+  let obs := map res_obs results in
+  let acq := fold_left (fun a r => a + st_acq (state_of r)) results 0 in
+  let rel := fold_left (fun a r => a + st_rel (state_of r)) results 0 in
+  let k := if Z.eqb mode 0 then 2 else 3 in
+  let m_obs := Lst [Lst obs; Lst obs; Lst (if Z.eqb mode 0 then [] else obs);
+                    Lst [of_nat (k * acq); of_nat (k * rel); I 0; I 0; I 0]] in
+  (* spec on the implementation *)
+  let i_seq := sx_list (sx_nth 0 impl) in
+  let i_fresh := sx_list (sx_nth 1 impl) in
+  let i_conc := sx_list (sx_nth 2 impl) in
+  let led := sx_nth 3 impl in
+  let per := combine (combine hist results) i_seq in
+  let no_panic_scripts := negb (cfg_has_panic cfg) in
+  let v_c06 := forallb (fun x =>
+        let h := fst (fst x) in let io := snd x in
+        let req := sx_request (sx_nth 1 h) in
+        implb no_panic_scripts
+              (sexp_eqb (of_strs (map strip_event (filter structural_event (sx_strs (sx_nth 5 io)))))
+                        (of_strs (expected_events O cfg req)))) per in
+  let v_c07 := forallb (fun x =>
+        let h := fst (fst x) in let io := snd x in
+        encoding_ok O cfg (Z.eqb (sx_int (sx_nth 0 h)) 1) (sx_request (sx_nth 1 h)) (sx_str (sx_nth 2 h))
+                    (impl_hvalues H_ContentEncoding (sx_nth 2 io)) (sx_bool (sx_nth 4 io))) per in
+  let v_c07_label := forallb (fun x =>
+        let h := fst (fst x) in let io := snd x in
+        encoding_labelled (sx_request (sx_nth 1 h)) (sx_str (sx_nth 2 h))
+                          (impl_hvalues H_ContentEncoding (sx_nth 2 io)) (sx_bool (sx_nth 4 io))) per in
+  let v_c10_noescape := forallb (fun io => implb (d_recover cfg) (Nat.eqb (List.length (sx_list (sx_nth 0 io))) 0)) i_seq in
+  let v_c10_once := forallb (fun io => implb (d_recover cfg) (Z.leb (sx_int (sx_nth 6 io)) 1)) i_seq in
+  let v_c10_ledger := Z.eqb (sx_int (sx_nth 0 led)) (sx_int (sx_nth 1 led))
+                      && Z.eqb (sx_int (sx_nth 2 led)) 0 && Z.eqb (sx_int (sx_nth 3 led)) 0
+                      && Z.eqb (sx_int (sx_nth 4 led)) 0 in
+  let v_c10_decodes := forallb (fun io => sx_bool (sx_nth 4 io)) i_seq in
+  let same l1 l2 := Nat.eqb (List.length l1) (List.length l2)
+                    && forallb (fun p => sexp_eqb (fst p) (snd p)) (combine l1 l2) in
+  let v_c19_hist := same i_seq i_fresh in
+  let v_c19_conc := match i_conc with [] => true | _ => same i_conc i_fresh end in
+  let kf7 := existsb (fun h => Z.eqb (sx_int (sx_nth 0 h)) 1) hist && d_encoding cfg in
+  let cls := (if existsb (fun r => match r with Panicked _ _ => true | _ => false end) results then "panic-escaped"
+              else if existsb (fun r => Nat.ltb 0 (st_recovered (state_of r))) results then "recovered"
+              else if existsb (fun r => match st_comp (state_of r) with Some _ => true | None => false end) results then "encoded"
+              else if existsb (fun r => negb (Nat.eqb (List.length (st_log (state_of r))) 0)) results then "plain"
+              else "empty")%string in
+  Lst [ m_obs;
+        Lst [ verdict "c06_filter_order" v_c06;
+              verdict "c06_concurrent_same_as_alone" v_c19_conc;
+              verdict "c07_encoding_enabled_and_wanted" v_c07;
+              verdict "c07_labelled_and_decodes" v_c07_label;
+              verdict "c10_panic_does_not_escape" v_c10_noescape;
+              verdict "c10_recover_handler_at_most_once" v_c10_once;
+              verdict "c10_compressors_released_once" v_c10_ledger;
+              verdict "c10_body_complete" v_c10_decodes;
+              verdict "c19_history_same_as_fresh" v_c19_hist;
+              verdict "c19_concurrent_same_as_fresh" v_c19_conc ];
+        A (L cls);
+        Lst [ verdict "kf:K-C07-1" kf7; verdict "no_panic_scripts" no_panic_scripts;
+              verdict "concurrent" (negb (Z.eqb mode 0));
+              verdict "history_longer_than_one" (Nat.ltb 1 (List.length hist)) ] ].
+
 Definition run_case (c impl : sexp) : sexp :=
   let dom := sx_str (sx_nth 0 c) in
   if str_eqb dom (L "cors") then run_cors (sx_nth 1 c) impl
@@ -359,4 +470,5 @@ Definition run_case (c impl : sexp) : sexp :=
   else if str_eqb dom (L "allow") then run_allow (sx_nth 1 c) impl
   else if str_eqb dom (L "twin") then run_twin (sx_nth 1 c) impl
   else if str_eqb dom (L "perm") then run_perm (sx_nth 1 c) impl
+  else if str_eqb dom (L "disp") then run_disp (sx_nth 1 c) impl
   else Lst [A (L "unknown-domain")].
